@@ -54,8 +54,26 @@ func vCheckC02(h *vHistory, out *vOutcome) []vViol {
 		}
 		sort.Strings(locks)
 		locks = uniqStrings(locks)
+		// scheduler goroutines parked in a channel SEND: one of the internal event queues (expiredCh,
+		// finishedReqCh, unloadedCh; all of capacity OLLAMA_MAX_QUEUE) is full
+		var sends []string
+		for _, wln := range out.Witness {
+			if strings.HasPrefix(wln, "[chan send]") {
+				for _, f := range strings.Split(wln, " < ") {
+					if strings.Contains(f, vPkg) && !strings.Contains(f, "created-by") && !strings.Contains(f, "vWorld") && !strings.Contains(f, "vRunHistory") && !strings.Contains(f, "waitForVRAMRecovery") {
+						sends = append(sends, strings.TrimPrefix(f[strings.Index(f, vPkg):], vPkg))
+						break
+					}
+				}
+			}
+		}
+		sort.Strings(sends)
+		sends = uniqStrings(sends)
 		var sig, what string
 		switch {
+		case len(locks) > 0 && len(sends) > 0:
+			sig = fmt.Sprintf("c02:deadlock:event-queue-full:max-queue-%d:send=%s:lock=%s", h.MaxQueue, strings.Join(sends, "+"), strings.Join(locks, "+"))
+			what = fmt.Sprintf("an internal event queue of the scheduler (capacity OLLAMA_MAX_QUEUE=%d) is full: %s is parked in a channel send while holding a runner's refMu, and %s waits for that mutex; the completion loop is the only consumer, so nothing moves any more; phase %s, unreplied requests %v, unclosed runners %v", h.MaxQueue, strings.Join(sends, ", "), strings.Join(locks, ", "), out.Phase, out.Unreplied, out.Unclosed)
 		case len(locks) > 0:
 			sig = "c02:deadlock:" + strings.Join(locks, "+")
 			what = fmt.Sprintf("scheduler is quiescent with goroutines parked on mutexes for good (%s); phase %s, unreplied requests %v, unclosed runners %v", strings.Join(locks, ", "), out.Phase, out.Unreplied, out.Unclosed)
